@@ -210,6 +210,10 @@ class Scope:
             lit = re_escape(self.val)
             pat = {"cs": "(?i)" + lit + "$", "cp": "(?i)^" + lit, "sub": lit}[self.rkind]
             return '$HTTP["url"] %s "%s"' % ("!~" if self.neg else "=~", pat)
+        if self.kind == "Q":
+            lit = re_escape(self.val)
+            pat = {"cp": "(?i)^" + lit, "hp": "(?i)^" + lit + "(:[0-9]+)?$"}[self.rkind]
+            return '$HTTP["host"] %s "%s"' % ("!~" if self.neg else "=~", pat)
         if self.kind == "I":
             return '$HTTP["remoteip"] %s "%s"' % ("!=" if self.neg else "==", self.net)
 
@@ -218,8 +222,8 @@ class Scope:
             return "G"
         if self.kind in "UH":
             return "%s%s:%s" % (self.kind, self.op, hx(self.val))
-        if self.kind == "R":
-            return "R%d:%s:%s" % (1 if self.neg else 0, self.rkind, hx(self.val))
+        if self.kind in "RQ":
+            return "%s%d:%s:%s" % (self.kind, 1 if self.neg else 0, self.rkind, hx(self.val))
         n = ipaddress.ip_network(self.net, strict=False) if "/" in self.net else None
         a = ipaddress.ip_address(self.net.split("/")[0])
         bits = int(self.net.split("/")[1]) if n is not None else 0
@@ -232,7 +236,7 @@ class Scope:
         if self.kind in "UH":
             l = url if self.kind == "U" else host
             if self.kind == "H" and self.op in "en":
-                m = host_eq(self.val, l)
+                m = ref_host_eq(self.val, l)
             else:
                 m = {"e": l == self.val, "n": l == self.val, "p": l.startswith(self.val),
                      "s": l.endswith(self.val)}[self.op]
@@ -243,6 +247,16 @@ class Scope:
             m = {"cs": u.endswith(lit), "cp": u.startswith(lit), "sub": self.val in url}[self.rkind]
             try:
                 url.decode("utf-8")          # PCRE2_UTF: no match on a subject that is not UTF-8
+            except UnicodeDecodeError:
+                m = False
+            return m != self.neg
+        if self.kind == "Q":
+            if self.rkind == "cp":
+                m = host.lower().startswith(self.val.lower())
+            else:
+                m = re.fullmatch(re.escape(self.val) + rb"(:[0-9]+)?", host, re.I) is not None
+            try:
+                host.decode("utf-8")
             except UnicodeDecodeError:
                 m = False
             return m != self.neg
@@ -280,13 +294,38 @@ def ip_in_net(a, n):
     return n.prefixlen >= 96 and m in n or (n.prefixlen < 96 and n.network_address.ipv4_mapped is not None)
 
 
-def host_eq(s, l):
-    """`$HTTP["host"] == s` on authority l (names match with or without :port)"""
-    if l and len(l) != len(s):
-        if len(l) > len(s):
-            return l[len(s):len(s) + 1] == b":" and len(l) - len(s) <= 6 and l[:len(s)] == s
-        return s[len(l):len(l) + 1] == b":" and s[:len(l)] == l
-    return l == s
+def split_authority(a):
+    """(name, port | None): the port is a final ':' followed by at most five digits (a TCP port);
+    the name may be an IPv6 literal in brackets"""
+    m = re.fullmatch(rb"(\[[^\]]*\]|[^:]*)(?::(\d{0,5}))?", a)
+    return (m.group(1), m.group(2)) if m else (a, None)
+
+
+def ref_host_eq(val, authority):
+    """`$HTTP["host"] == val`, as documented: the names are equal, and the ports are equal if both the
+    configured value and the request's authority carry one (written from the documentation, not from
+    the code: no length arithmetic)"""
+    if not authority:
+        return authority == val
+    vn, vp = split_authority(val)
+    an, ap = split_authority(authority)
+    return vn == an and (vp is None or ap is None or vp == ap)
+
+
+def ref_authority(raw, flags):
+    """the authority conditions see: lower case; with host-strict the trailing dot of a fully qualified
+    name is folded; with host normalisation the port is canonical and the default port is dropped."""
+    h = raw.lower()
+    if flags & 2:          # host-strict: the root label's dot and an empty port are dropped
+        n, pt = split_authority(h)
+        if n.endswith(b".") and not n.startswith(b"["):
+            n = n[:-1]
+        h = n + (b":" + pt if pt else b"")
+    if flags & 4:
+        n, pt = split_authority(h)
+        if pt:
+            h = n if int(pt) == 80 else n + b":" + str(int(pt)).encode()
+    return h
 
 
 class Block:
@@ -383,10 +422,7 @@ class Request:
 
     def ref_host(self, flags=4):
         h = self.absolute if (self.kind == 1 and self.absolute is not None) else (self.host or b"")
-        h = h.lower()
-        if h.endswith(b":80") and (flags & 4):      # (the default port goes when hosts are normalised)
-            h = h[:-3]
-        return h
+        return ref_authority(h, flags)
 
     def field(self, name):
         vs = [v for k, v in self.fields if k.lower() == name]
@@ -432,13 +468,55 @@ def ref_peer_trusted(fwd, peer):
     return ref_trusted(fwd, peer)
 
 
+FWD_PARAM = rb"[A-Za-z0-9_-]+=(?:\"[^\",;\\\\]*\"|[0-9A-Za-z._:-]*)"
+FWD_ELEM = FWD_PARAM + rb"(?:;" + FWD_PARAM + rb")*"
+FWD_HDR = re.compile(rb" *" + FWD_ELEM + rb"(?: *, *" + FWD_ELEM + rb")* *")
+FWD_MANY = 50       # "~50 params is more than reasonably expected": beyond that 400 (fail closed) is fine
+
+
+def ref_forwarded(fwd, hdr):
+    """reference reading of a Forwarded header (RFC 7239), from the header AS SENT, all of it:
+    -> (pick | None, exact, nparams).  exact=False: outside the grammar / ambiguous elements."""
+    if not FWD_HDR.fullmatch(hdr):
+        return None, False, 0
+    chain, nparams = [], 0
+    for el in hdr.split(b","):
+        fors = []
+        for prm in el.strip().split(b";"):
+            nparams += 1
+            k, v = prm.split(b"=", 1)
+            if k.lower() == b"for":
+                fors.append(v)
+        if len(fors) != 1:
+            return None, False, nparams           # no / several node identifiers: not defined here
+        v = fors[0]
+        if v.startswith(b'"'):
+            v = v[1:-1]
+            if v.startswith(b"["):
+                if b"]" not in v or v.index(b"]") == 1 and v.rindex(b"]") == 1:
+                    return None, False, nparams
+                v = v[1:v.rindex(b"]")]
+            elif v[:1] not in (b"_", b"/", b"u"):
+                v = v.split(b":")[0]
+        if not v or v[:1] in (b"_", b"/") or v == b"unknown":
+            return None, False, nparams           # obfuscated / unknown hop
+        chain.append(v)
+    pick = None
+    for ip in reversed(chain):
+        pick = ip
+        if not ref_trusted(fwd, ip):
+            break
+    return pick, True, nparams
+
+
 def ref_addr(cfg, rq, url):
-    """reference client address: (addr, exact).  exact=False: the header is outside the
-    well-formed grammar the reference understands; only the safety envelope is known."""
+    """reference client address: (addr, exact, may400).  exact=False: the header is outside the
+    well-formed grammar the reference understands; only the safety envelope is known.
+    may400: so many Forwarded params that rejecting the request is acceptable (never a truncated walk)."""
     host = rq.ref_host(cfg.flags)
     fwd = cfg.setting("fwd", url, host, rq.peer)
     if fwd is None:
-        return rq.peer, True
+        return rq.peer, True, False
     names = cfg.setting("fhdrs", url, host, rq.peer) or [b"X-Forwarded-For", b"Forwarded-For"]
     hdr = name = None
     for n in names:
@@ -447,30 +525,16 @@ def ref_addr(cfg, rq, url):
             hdr, name = v, n.lower()
             break
     if hdr is None or not ref_peer_trusted(fwd, rq.peer):
-        return rq.peer, True
+        return rq.peer, True, False
+    may400 = False
     if name == b"forwarded":
-        if not re.fullmatch(rb"(for=[0-9a-fA-F.:]+|for=\"\[[0-9a-fA-F.:]+\](:\d+)?\"|for=\"[0-9.]+(:\d+)?\")"
-                            rb"(;(proto|by|host)=[a-z0-9.]+)*( *, *(for=[0-9a-fA-F.:]+|for=\"\[[0-9a-fA-F.:]+\](:\d+)?\"|"
-                            rb"for=\"[0-9.]+(:\d+)?\")(;(proto|by|host)=[a-z0-9.]+)*)*", hdr):
-            return rq.peer, False
-        chain = []
-        for el in hdr.split(b","):
-            v = el.strip().split(b";")[0][4:]
-            if v.startswith(b'"'):
-                v = v[1:-1]
-                if v.startswith(b"["):
-                    v = v[1:v.rindex(b"]")]
-                else:
-                    v = v.split(b":")[0]
-            chain.append(v)
-        pick = None
-        for ip in reversed(chain):
-            pick = ip
-            if not ref_trusted(fwd, ip):
-                break
+        pick, exact, nparams = ref_forwarded(fwd, hdr)
+        may400 = nparams >= FWD_MANY
+        if not exact:
+            return rq.peer, False, may400 or nparams == 0
     else:
         if not re.fullmatch(rb"[0-9a-fA-F.:]+( *, *[0-9a-fA-F.:]+)*", hdr):
-            return rq.peer, False
+            return rq.peer, False, False
         chain = [x.strip() for x in hdr.split(b",")]
         pick = None
         for ip in reversed(chain):
@@ -478,14 +542,63 @@ def ref_addr(cfg, rq, url):
                 pick = ip
                 break
         if pick is None:
-            return rq.peer, True
+            return rq.peer, True, False
     try:
         ipaddress.ip_address(pick.decode())
     except ValueError:
-        return rq.peer, False         # libc may or may not accept it (e.g. "1.2.3")
+        return rq.peer, False, may400         # libc may or may not accept it (e.g. "1.2.3")
     if re.search(rb"(^|\.)0\d", pick):
-        return rq.peer, False
-    return pick, True
+        return rq.peer, False, may400
+    return pick, True, may400
+
+
+def ref_canon(target):
+    """the once-decoded, simplified path of a request-target (independent statement of
+    http_request_parse_target()'s result for every parse-option profile that accepts the target);
+    None where the reference does not apply (raw control / non-ASCII bytes, relative result)"""
+    if any(c < 33 or c > 126 for c in target):
+        return None
+    t = target.split(b"#", 1)[0].split(b"?", 1)[0]
+    a = _simplify(_decode_once(t))
+    # whether an encoded slash delimits segments when dot segments are removed depends on the parse
+    # options (url-path-2f-decode); the reference only speaks where both readings agree
+    dots = re.sub(rb"%2[eE]", b".", t)
+    b = _simplify(dots)
+    b = _simplify(_decode_once(b)) if b is not None else None
+    return a if a is not None and a == b else None
+
+
+def _decode_once(t):
+    out = bytearray()
+    i = 0
+    while i < len(t):
+        if t[i] == 0x25 and re.fullmatch(rb"[0-9a-fA-F]{2}", t[i + 1:i + 3]):
+            c = int(t[i + 1:i + 3], 16)
+            out.append(c if 32 <= c != 127 else 0x5f)      # decoded control bytes become '_'
+            i += 3
+        else:
+            out.append(t[i])
+            i += 1
+    return bytes(out)
+
+
+def _simplify(p):
+    if not p.startswith(b"/"):
+        return None
+    segs = p.split(b"/")[1:]
+    stack = []
+    for sg in segs:
+        if sg in (b"", b"."):
+            continue
+        if sg == b"..":
+            if stack:
+                stack.pop()
+        else:
+            stack.append(sg)
+    r = b"/" + b"/".join(stack)
+    if segs and segs[-1] in (b"", b".", b"..") and stack:
+        r += b"/"
+    return r
 
 
 def ref_authorised(cfg, rq, f, addr):
@@ -535,7 +648,16 @@ def srv_oracle(line, out):
             continue               # head rejected by the request parser: no module ran
         addr = unhx(addr)
         url0 = unhx(uri) if uri != "-" else b""
-        want, exact = ref_addr(cfg, rq, url0)
+        want, exact, may400 = ref_addr(cfg, rq, url0)
+        if st == "400" and (may400 or not exact):
+            continue               # rejected (fail closed): no decision was taken
+        if st != "400":
+            canon = ref_canon(rq.target)
+            full = url0 + unhx(pi)
+            if canon is not None and (full.lower() != canon.lower() if cfg.lc else full != canon):
+                return verdict("r->uri.path is not the once-decoded, simplified request path",
+                               "target %r (HTTP/%d, parseopts %d): uri.path %r + path-info %r, reference %r"
+                               % (rq.target, rq.kind, cfg.flags, url0, unhx(pi), canon))
         if exact and addr != want:
             return verdict("request attributed to a client address that is not the reference address "
                            "(TCP peer, or right-most untrusted hop behind a trusted forwarder)",
@@ -657,7 +779,34 @@ RE_SCOPES = [("cs", b".php"), ("cp", b"/secret/"), ("cs", b".txt"), ("cp", b"/di
              ("cp", b"/private"), ("cs", b"~"), ("cp", b"/mixed/")]
 HOSTS = [b"www.example", b"secure.example", b"other.example"]
 HOST_SCOPES = [("e", b"secure.example"), ("n", b"www.example"), ("e", b"secure.example:80"), ("s", b".example"),
-               ("p", b"secure")]
+               ("p", b"secure"), ("e", b"other.example"), ("n", b"secure.example"), ("e", b"[::1]"),
+               ("e", b"secure.example:8080")]
+HOST_RE_SCOPES = [("cp", b"secure."), ("hp", b"secure.example"), ("hp", b"www.example"), ("cp", b"other.example")]
+PORTS = [b":80", b":8", b":81", b":808", b":8080", b":10000", b":65535", b":12345", b":080", b":443"]
+PORTS_LENIENT = [b":", b":100000", b":0", b":99999"]          # (refused when hosts are checked / normalised)
+V6_HOSTS = [b"[::1]", b"[::1]:8080", b"[2001:db8::1]:12345", b"[::1]:80"]
+
+
+def spell_host(rng, name, flags):
+    """an authority that names `name`: letter case, port (none, 1-5 digits, default), trailing dot"""
+    h = name
+    r = rng.random()
+    if r < 0.15:
+        h = h.upper()
+    elif r < 0.25:
+        h = bytes(c ^ 0x20 if chr(c).isalpha() and rng.random() < 0.4 else c for c in h)
+    if rng.random() < 0.12:
+        h += b"."
+    r = rng.random()
+    if r < 0.5:
+        h += rng.choice(PORTS)
+    elif r < 0.56 and not (flags & 6):
+        h += rng.choice(PORTS_LENIENT)
+    if not (flags & 6) and rng.random() < 0.06:
+        h = rng.choice(V6_HOSTS)
+    return h
+
+
 IP_SCOPES = [(False, "192.168.0.0/16"), (True, "10.0.0.0/8"), (False, "203.0.113.9"), (True, "127.0.0.1"),
              (False, "2001:db8::/32"), (True, "10.1.0.0/16"), (False, "10.9.9.9"), (False, "0.0.0.0/1")]
 FWD_SETS = [[(b"10.0.0.1", b"trust")], [(b"10.0.0.1", b"trust"), (b"10.1.0.0/16", b"trust")],
@@ -709,9 +858,13 @@ def rand_blocks(rng, lc, limits=False):
             else:
                 op, v = rng.choice(URL_SCOPES_CS)
                 sc = Scope("U", op=op, val=v)
-        elif k < 0.65:
-            op, v = rng.choice(HOST_SCOPES)
-            sc = Scope("H", op=op, val=v)
+        elif k < 0.7:
+            if rng.random() < 0.3:
+                rk, v = rng.choice(HOST_RE_SCOPES)
+                sc = Scope("Q", rkind=rk, val=v, neg=rng.random() < 0.25)
+            else:
+                op, v = rng.choice(HOST_SCOPES)
+                sc = Scope("H", op=op, val=v)
         else:
             neg, net = rng.choice(IP_SCOPES)
             sc = Scope("I", neg=neg, net=net)
@@ -727,7 +880,7 @@ def rand_blocks(rng, lc, limits=False):
             # auth rules only in scopes that still hold when path-info is appended
             # (regular expressions are not: PCRE2 in UTF mode refuses a subject with a stray
             #  byte such as %80 in the path-info)
-            monotone = sc.kind in "HI" or (sc.kind == "U" and sc.op == "p")
+            monotone = sc.kind in "HIQ" or (sc.kind == "U" and sc.op == "p")
             if monotone or limits:
                 b.auth = rng.choice(AUTH_SETS)
             else:
@@ -736,7 +889,7 @@ def rand_blocks(rng, lc, limits=False):
             b.excl = rng.choice(EXCL_SETS + [[]])
         if rng.random() < 0.15:
             b.deny = b.deny if b.deny is not None else rng.choice(DENY_SETS)
-        if sc.kind in "IH" and rng.random() < 0.4:
+        if sc.kind in "IHQ" and rng.random() < 0.4:
             # an extforward directive makes mod_extforward evaluate (and cache) this condition with the
             # TCP peer's address before it changes the address
             b.fhdrs = rng.choice([[b"X-Forwarded-For", b"Forwarded"], [b"Forwarded"], [b"X-Forwarded-For"]])
@@ -744,8 +897,35 @@ def rand_blocks(rng, lc, limits=False):
     return blocks
 
 
+def heavy_forwarded(rng, trusted_pool):
+    """a well-formed Forwarded header whose parameter count is near the capacity of
+    mod_extforward's offsets[256] (4 slots per param, 1 per ','): client-supplied elements with many
+    params, then what the trusted proxies append"""
+    def elem(ip, nparams):
+        ps = [b"p%d=v%d" % (i, i) for i in range(nparams - 1)]
+        ps.insert(rng.randint(0, len(ps)), b"for=" + ip)
+        return b";".join(ps)
+    els = []
+    shape = rng.random()
+    if shape < 0.6:
+        els.append(elem(rng.choice(CHAIN_IPS), rng.randint(56, 68)))
+    elif shape < 0.8:
+        tot = rng.randint(56, 70)
+        k = rng.randint(1, tot - 1)
+        els += [elem(rng.choice(CHAIN_IPS), k), elem(rng.choice(CHAIN_IPS), tot - k)]
+    else:
+        els += [b"for=" + rng.choice(CHAIN_IPS) for _ in range(rng.randint(46, 54))]
+    els.append(b"for=" + rng.choice(CHAIN_IPS))                  # appended by the first proxy
+    for _ in range(rng.choice([0, 0, 1, 2])):
+        if trusted_pool:
+            els.append(b"for=" + rng.choice(trusted_pool))
+    return b"Forwarded", rng.choice([b", ", b","]).join(els)
+
+
 def rand_chain_header(rng, trusted_pool):
     """(header name, value): X-Forwarded-For or Forwarded chain, mostly well-formed"""
+    if rng.random() < 0.04:
+        return heavy_forwarded(rng, trusted_pool)
     n = rng.choice([1, 1, 2, 2, 3, 4, 6])
     ips = []
     for i in range(n):
@@ -823,12 +1003,7 @@ def rand_request(rng, cfg, base=None, depth=None):
     target = respell(rng, base, depth)
     kind = 1 if rng.random() < 0.6 else 2
     peer = rng.choice(pool) if pool and rng.random() < 0.5 else rng.choice(PEERS)
-    host = rng.choice(HOSTS)
-    r = rng.random()
-    if r < 0.1:
-        host = host.upper()
-    elif r < 0.2:
-        host += b":80"
+    host = spell_host(rng, rng.choice(HOSTS), cfg.flags)
     fields = []
     if rng.random() < 0.55:
         fields.append(rand_chain_header(rng, pool))
@@ -841,8 +1016,8 @@ def rand_request(rng, cfg, base=None, depth=None):
         fields.append((b"Authorization", BAD_CRED))
     absolute = None
     if kind == 1:
-        if rng.random() < 0.12 and target.startswith(b"/"):
-            absolute = rng.choice(HOSTS + [b"SECURE.example", b"secure.example:80"])
+        if rng.random() < 0.15 and target.startswith(b"/"):
+            absolute = spell_host(rng, rng.choice(HOSTS), cfg.flags)
             host = None if rng.random() < 0.7 else absolute
         # h1 line syntax: SP, CR, LF and NUL cannot be written inside the target of a valid line
         if any(c in target for c in b" \r\n"):
@@ -884,6 +1059,13 @@ def closure_lines(ctx, root, depth, per_cfg):
         ("url-eq-cond", [Block(Scope("G")), Block(Scope("U", op="e", val=b"/private/data.bin"), deny=[b""])], [b"/private/data.bin"]),
         ("url-regex-cond", [Block(Scope("G")), Block(Scope("R", rkind="cs", val=b".php"), deny=[b""])], [b"/app.php", b"/secret/run.php"]),
         ("host-cond", [Block(Scope("G")), Block(Scope("H", op="e", val=b"www.example"), deny=[b".txt"])], [b"/a.txt", b"/pub/readme.txt"]),
+        ("host-eq-block", [Block(Scope("G")), Block(Scope("H", op="e", val=b"secure.example"), deny=[b""])],
+         [b"/secret/key.html", b"/index.html"]),
+        ("host-ne-block", [Block(Scope("G")), Block(Scope("H", op="n", val=b"www.example"), auth=[b"/"])],
+         [b"/private/data.bin", b"/index.html"]),
+        ("host-re-block", [Block(Scope("G")), Block(Scope("Q", rkind="hp", val=b"secure.example"), auth=[b"/secret"],
+                                                    deny=[b".php"])],
+         [b"/secret/key.html", b"/app.php"]),
         ("ip-cond", [Block(Scope("G"), fwd=[(b"10.0.0.1", b"trust")]),
                      Block(Scope("I", neg=True, net="10.0.0.0/8"), deny=[b""], fhdrs=[b"X-Forwarded-For", b"Forwarded"])],
          [b"/index.html", b"/007/plan.txt"]),
@@ -914,6 +1096,15 @@ def closure_lines(ctx, root, depth, per_cfg):
                                                       (b"X-Forwarded-For", b"203.0.113.9, 10.0.0.1"),
                                                       (b"X-Forwarded-For", b"10.9.9.9, 203.0.113.9"),
                                                       (b"Forwarded", b"for=10.9.9.9"), (b"X-Forwarded-For", b"10.0.0.1")])]
+                                if name.startswith("host-"):
+                                    # every spelling of the protected vhost's authority, through all three
+                                    # entries: Host field, absolute-form target, HTTP/2 :authority
+                                    h = spell_host(rng, b"secure.example", cfg.flags)
+                                    if kind == 1 and t.startswith(b"/") and rng.random() < 0.35:
+                                        reqs.append(Request(1, peer, t, None if rng.random() < 0.6 else h, fl, absolute=h))
+                                    else:
+                                        reqs.append(Request(kind, peer, t, h, fl))
+                                    continue
                                 reqs.append(Request(kind, peer, t, rng.choice([b"www.example", b"WWW.example:80"]), fl))
                     for i in range(0, len(reqs), 24):
                         part = reqs[i:i + 24]
@@ -1163,6 +1354,16 @@ def xff_lines(ctx):
                                     ";".join("%s:%s" % (hx(k), hx(v)) for k, v in fields))
         _xff_cases[line] = (fwd, hdrs, peer, fields)
         lines.append(line)
+    # well-formed Forwarded headers near the capacity of offsets[]: 400 or the reference address
+    for _ in range(4000 if ctx.quick else 40000):
+        fwd = rng.choice(FWD_SETS)
+        pool = trusted_pool(fwd)
+        peer = rng.choice(pool) if pool else rng.choice(PEERS)
+        fields = [heavy_forwarded(rng, pool)]
+        line = "xff %s %s %s %s" % (fwd_tok(fwd), hx(b"Forwarded"), hx(peer),
+                                    ";".join("%s:%s" % (hx(k), hx(v)) for k, v in fields))
+        _xff_cases[line] = (fwd, [b"Forwarded"], peer, fields)
+        lines.append(line)
     # long Forwarded headers around the offsets[] limit
     for npar in (60, 62, 63, 64, 65, 70, 126, 127, 128, 250, 252, 253, 254, 255, 256, 260):
         for sep in (b";", b","):
@@ -1191,7 +1392,7 @@ def xff_oracle(line, out):
     addr = unhx(o[2]) if o[2] != "=" else None
     cfg = Config([Block(Scope("G"), fwd=fwd, fhdrs=hdrs)], [], False)
     rq = Request(2, peer, b"/", b"h", fields)
-    want, exact = ref_addr(cfg, rq, b"/")
+    want, exact, may400 = ref_addr(cfg, rq, b"/")
     got = addr if addr is not None else peer
     if o[1] == "400":
         if addr is not None:
@@ -1398,7 +1599,7 @@ def run_e2e(ctx, root):
             ctx.keys["e2e:%d:%s:%s" % (rq.kind, st, "file" if st == "200" else "-")] += 1
             sent = body if st == "200" and body in FILES else None
             if sent is not None:
-                addr, exact = ref_addr(cfg, rq, unhx(muri) if muri != "-" else b"")
+                addr, exact, _ = ref_addr(cfg, rq, unhx(muri) if muri != "-" else b"")
                 if not exact:
                     # header outside the reference grammar: the address is not observable here; take the
                     # model's (validated against the implementation by the in-process streams)
@@ -1488,9 +1689,9 @@ def parse_case(line):
             scope = Scope("G")
         elif sc[0] in "UH":
             scope = Scope(sc[0], op=sc[1], val=unhx(sc.split(":")[1]))
-        elif sc[0] == "R":
+        elif sc[0] in "RQ":
             _, rk, lit = sc.split(":")
-            scope = Scope("R", rkind=rk, val=unhx(lit), neg=sc[1] == "1")
+            scope = Scope(sc[0], rkind=rk, val=unhx(lit), neg=sc[1] == "1")
         else:
             _, fam, a, bits = sc.split(":")
             net = str(ipaddress.ip_address(bytes.fromhex(a)))
